@@ -243,12 +243,13 @@ func init() {
 	plan, run := sections(
 		section{"small", tiered(3000, 60000), c04Small},
 		section{"large", tiered(60, 1500), c04Large},
+		concurrentSection("C04"),
 	)
 	core.Register(&core.Monitor{
 		ID: "C04", Level: "exploration", Plan: plan, Run: run,
 		Rule: "messages drawn from small pools of suffix-sharing / case-variant / escaped names, 0..4 questions, every name-bearing type in every section, plus 300..1200-record messages crossing offset 16384; " +
 			"oracle = strict model decoder (expands names, logs every pointer with position/target/field) compared byte-exact with the uncompressed packing; model-compressed input with pointers in every type's RDATA; the same message packed again after a failing and after a succeeding Pack of a related message with shifted offsets must give identical octets; " +
-			"non-trivial = distinct message whose compressed form is shorter",
+			"the same operations called from 8 goroutines at once give the results they give alone; non-trivial = distinct message whose compressed form is shorter",
 		Assumptions: []string{"RFC 3597 s.4 set = NS MD MF CNAME SOA MB MG MR PTR MINFO MX"},
 		MinObserved: []string{"messages", "pointers", "messages_over_16384", "input_pointers_in_other_rdata", "history_checks"},
 	})
